@@ -605,8 +605,8 @@ impl Calendar {
             {
                 Some(era::JAPANESE_INVERSE_ERA)
             }
-            AnyCalendarKind::Japanese if *era_alias == tinystr!(19, "mejei") => {
-                Some(era::MEJEI_ERA)
+            AnyCalendarKind::Japanese if *era_alias == tinystr!(19, "meiji") => {
+                Some(era::MEIJI_ERA)
             }
             AnyCalendarKind::Japanese if *era_alias == tinystr!(19, "reiwa") => {
                 Some(era::REIWA_ERA)
